@@ -2973,7 +2973,18 @@ namespace Clipper2Lib {
 
     if (outrec->polypath || outrec->bounds.IsEmpty()) return;
 
-    while (outrec->owner)
+    // outrec may be inside a path that was split off outrec itself (or inside
+    // a path nested in one of those), so outrec's own splits are searched first
+    bool found = outrec->splits && CheckSplitOwner(outrec, outrec->splits);
+
+    // every owner in the chain is tested in the loop below, and only after its
+    // own splits, so CheckSplitOwner must not accept any of them before that
+    // (a split without pts can resolve to any of them)
+    if (!found)
+      for (OutRec* o = outrec->owner; o; o = o->owner)
+        o->recursive_split = outrec;
+
+    while (!found && outrec->owner)
     {
       if (outrec->owner->splits && CheckSplitOwner(outrec, outrec->owner->splits)) break;
       if (outrec->owner->pts && CheckBounds(outrec->owner) &&
